@@ -2,8 +2,10 @@ CONSTANTS
     MaxN = 2
     Universe = "pre"
     UnpackStaged = TRUE
+    ListedMustBeRegular = TRUE
     ManifestHashInjective = TRUE
     ExcuseImmArchive = FALSE
+    ExcuseAncLink = FALSE
     ExcuseMerged = FALSE
 SPECIFICATION Spec
 INVARIANTS OnlyAllowed RefusalTouchesNothing
